@@ -332,10 +332,13 @@ func s1Cmp(a, b, scale float64) RuleVal {
 	if Near(a, b, scale) {
 		return RuleVal{Exempt: true}
 	}
-	if a > b {
+	switch {
+	case a > b:
 		return RuleVal{A: strategy.Buy}
+	case a < b:
+		return RuleVal{A: strategy.Sell}
 	}
-	return RuleVal{A: strategy.Sell}
+	return RuleVal{} // unordered (NaN): neither test holds
 }
 
 // s1TwoLines: Buy when line a is above line b, Sell when below; each line
